@@ -189,9 +189,15 @@ def write_once(target, pi, depth, spell_kind, level, trace=None):
     if want is None:
         return True
     before_tree = tree(root)
-    # read the chain a few times first (must not matter), then write at its end
+    # read the chain a few times first - also BELOW the position that will be written - (must not matter), then write
     navigate(root, steps, spell_kind)
     navigate(root, steps, spell_kind)
+    deep = navigate(root, steps_for(target, pi, 99), spell_kind)
+    try:
+        deep.value
+        len(deep)
+    except AttributeError:
+        pass
     holder = navigate(root, steps[:-1], spell_kind) if len(steps) > 1 else root
     field_name = root.name if target == 2 else ([s[1] for s in steps if s[0] == 'field'] or [None])[0]
     setattr(holder, spell(steps[-1], spell_kind, field_name, None), tok(pi))
